@@ -348,7 +348,10 @@ namespace cnl {
             [[nodiscard]] constexpr auto operator()(Lhs const& lhs, Rhs const& rhs) const
             {
                 using traits = operator_overflow_traits<shift_left_op, Lhs, Rhs>;
-                return lhs < 0 ? rhs > 0 ? rhs < traits::positive_digits
+                // the most negative number, -1 << positive_digits, is in range
+                constexpr int max_shift = traits::positive_digits
+                                        + has_most_negative_number<typename traits::result>::value;
+                return lhs < 0 ? rhs > 0 ? rhs < max_shift
                                                  ? (lhs >> (traits::positive_digits - rhs)) != -1
                                                  : true
                                          : false
